@@ -706,6 +706,69 @@ def special_constraint_cases(g, rng):
     return cases
 
 
+def offset_cases(g, rng):
+    """Ordered-timestamp rules fed with aware datetime OBJECTS of different UTC offsets through the constructors
+    (Python-only values, judged by the oracle): wall-clock order and instant order disagree."""
+    cases = []
+    for cid in g.classes:
+        if not stixgen.ordered_timestamp_pairs(g, cid):
+            continue
+        o = g.obj(cid, 0, {"safe": True}, optional_p=0.2)
+        for lab, x in stixgen.offset_datetime_cases(g, cid, o):
+            cases.append({"op": "construct", "cid": cid, "data": x, "allow": False, "interop": False, "py": True,
+                          "meta": {"origin": "python-value", "ckind": lab.split(":")[0], "slot": lab.split(":")[1], "cid": cid}})
+    return cases
+
+
+E1 = "extension-definition--11111111-1111-4111-8111-111111111111"
+E2 = "extension-definition--22222222-2222-4222-8222-222222222222"
+EXT_TOPLEVEL = {E1: ["e1_rank", "e1_note"], E2: ["e2_rank"]}
+
+
+def ext_histories():
+    """Histories over two REGISTERED toplevel-property-extensions (the worker registers them in a process of its own):
+    an object carrying both with their properties, then objects carrying one of them together with the OTHER one's
+    property (must be refused in strict mode), in several orders."""
+    def ident(exts, **props):
+        d = _ident(extensions={e: {"extension_type": "toplevel-property-extension"} for e in exts})
+        d.update(props)
+        return d
+    both = ident([E1, E2], e1_rank=1, e2_rank=2)
+    only1_plus2 = ident([E1], e1_rank=1, e2_rank=2)
+    only2_plus1 = ident([E2], e2_rank=2, e1_note="n")
+    only1 = ident([E1], e1_rank=1)
+    return [[both, only1_plus2, only2_plus1, only1], [only1_plus2, both, only1_plus2], [only1, only2_plus1, both, only2_plus1],
+            [both, both, only1_plus2], [only1, only1_plus2]]
+
+
+def ext_history_oracle(run):
+    """Every strict success must emit only top-level properties that the class or an extension PRESENT in the object
+    declares (an unregistered toplevel-property-extension vouches for anything; these two are registered)."""
+    spec_names = {s["name"] for s in _spec()["classes"]["2.1/Identity"]["slots"]}
+    hist = ext_histories()
+    res = common.run_impl("schema_impl", [{"op": "ext-history", "steps": h} for h in hist], procs=1)
+    n = 0
+    for h, r in zip(hist, res):
+        steps = r.get("steps", []) if isinstance(r, dict) else []
+        for i, (d, st) in enumerate(zip(h, steps)):
+            n += 1
+            run.count({"op": "ext-history", "steps": h[:i + 1]}, nontrivial=True)
+            if st.get("r") != "OK":
+                continue
+            ser = st["ser"]
+            declared = set(spec_names)
+            for e in (ser.get("extensions") or {}):
+                declared |= set(EXT_TOPLEVEL.get(e, []))
+            extra = sorted(k for k in ser if k not in declared)
+            if extra:
+                run.violations.append(Violation(
+                    "strict parse (step %d of a history over two registered toplevel-property-extensions) emits top-level "
+                    "propert%s %s that neither the class nor an extension present in the object declares: %s"
+                    % (i, "y" if len(extra) == 1 else "ies", ", ".join(extra), json.dumps(ser)[:300]),
+                    {"ext_history": h[:i + 1], "step": i, "extra": extra}))
+    run.coverage["ext_history_steps"] = n
+
+
 def size_cases(g, rng, per_class):
     """Legal shapes at unusual sizes (stixgen.size_variations): lists of 1..256 elements, strings of length 0 / 1 / 255 /
     256, dictionary keys of a bound length, dictionary values nested up to 64 deep."""
@@ -793,6 +856,7 @@ def check(run):
     cases += witness_cases()
     cases += special_constraint_cases(g, run.rng)
     cases += extension_type_cases(g, run.rng)
+    cases += offset_cases(g, run.rng)
     cases += size_cases(g, run.rng, 1 if quick else 3)
     cases += sc.flag_sequences(g, run.rng, 8 if quick else 40)
     cases += sc.argument_forms(cases, run.rng)
@@ -836,6 +900,10 @@ def check(run):
     except RuntimeError as e:
         found = {}
         run.broken.append(Broken("oracle", "evaluation of the specification validator failed", {"error": str(e)[-1500:]}))
+    try:
+        ext_history_oracle(run)
+    except RuntimeError as e:
+        run.broken.append(Broken("oracle", "registered-extension history did not run", {"error": str(e)[-800:]}))
     # every failing refinement slot must be explained by a failing input around it
     explained = set()
     for i, fids in found.items():
@@ -864,6 +932,24 @@ def check(run):
 
 def replay(payload):
     r = payload["replay"]
+    if r.get("ext_history"):
+        res = common.run_impl("schema_impl", [{"op": "ext-history", "steps": r["ext_history"]}], procs=1)[0]
+        steps = res.get("steps", []) if isinstance(res, dict) else []
+        for i, st in enumerate(steps):
+            print("  step %d -> %s" % (i, st.get("r")))
+        last = steps[-1] if steps else {}
+        if last.get("r") == "OK":
+            names = {s["name"] for s in _spec()["classes"]["2.1/Identity"]["slots"]}
+            for e in (last["ser"].get("extensions") or {}):
+                names |= set(EXT_TOPLEVEL.get(e, []))
+            extra = sorted(k for k in last["ser"] if k not in names)
+            if extra:
+                print("emitted: %s" % json.dumps(last["ser"]))
+                print("top-level properties nothing present declares: %s" % ", ".join(extra))
+                print("VIOLATION property=C02 replay=(given)")
+                return 1
+        print("no violation on this history")
+        return 0
     c = r["case"]
     if r.get("sequence"):
         ls, ex = sc.run_impl_cases([dict(x, meta={}) for x in r["sequence"]])
